@@ -237,6 +237,20 @@ func (c *choiceCasesResolver) getOldPopulatedElementNames(caseName string) []str
 	return result
 }
 
+// getCaseElementNames returns the names of all the elements of the given case
+func (c *choiceCasesResolver) getCaseElementNames(caseName string) []string {
+	cas, exists := c.cases[caseName]
+	if !exists {
+		return nil
+	}
+	result := make([]string, 0, len(cas.elements))
+	for name := range cas.elements {
+		result = append(result, name)
+	}
+	slices.Sort(result)
+	return result
+}
+
 // GetSkipElements returns the names of all the elements that belong to
 // cases that have not the best priority
 func (c *choiceCasesResolver) GetSkipElements() []string {
